@@ -4,7 +4,7 @@ import json
 import os
 import re
 import shutil
-import subprocess
+import subprocess, threading
 import sys
 import tempfile
 import time
@@ -92,6 +92,8 @@ def build_harness(need_wire=False):
     hdir = os.path.join(VERIF, "tools", "harness")
     with open(os.path.join(hdir, "overlay.json")) as f:
         full = json.load(f)["Replace"]
+    # harness sources are taken from THIS copy of /verif (a snapshot run must not see later edits)
+    full = {k: (VERIF + v[len("/verif"):] if v.startswith("/verif/") else v) for k, v in full.items()}
     full = {(REPO + k[len("/repo"):] if k.startswith("/repo/") else k): v for k, v in full.items() if os.path.exists(v)}
     base = {k: v for k, v in full.items() if not os.path.basename(k).startswith("wire")}
     base[REPO + "/cmd/verifharness/wire.go"] = os.path.join(hdir, "stub", "wire.go")
@@ -107,6 +109,23 @@ def build_harness(need_wire=False):
         if rc == 0:
             return exe, out
     return None, out
+
+
+_server_lock = threading.Lock()
+_server_built = None
+
+
+def build_server():
+    """Build the real server binary (cmd/redka) from the tree, once per run, for the socket-level streams."""
+    global _server_built
+    with _server_lock:
+        if _server_built is None:
+            exe = os.path.join(BUILD, "redka-server")
+            if os.path.exists(exe):
+                os.unlink(exe)
+            rc, out = sh(["go", "build", "-o", exe, "./cmd/redka"], cwd=REPO, env=GOENV)
+            _server_built = ((exe if rc == 0 else None), out)
+        return _server_built
 
 
 def lake_build(targets):
@@ -179,6 +198,11 @@ def run_stream(spec, workdir, idx, harness, driver="driver"):
         with open(sp, "w") as f:
             f.write(spec["script"])
         cmd = [harness, "script", sp] if spec["kind"] == "script" else [harness, "wire", "-script", sp]
+    elif spec["kind"] == "sock":
+        server, sout = build_server()
+        if server is None:
+            return dict(spec=spec, lines=lines, verd=None, error="server binary does not build: " + sout[-1500:])
+        cmd = [harness, "sock", "-bin", server] + [str(a) for a in spec["args"]]
     else:
         cmd = [harness, spec["kind"]] + [str(a) for a in spec["args"]]
     with open(lines, "w") as lf:
@@ -234,7 +258,7 @@ def step_key(line):
         return line
     if line.startswith("SCAN "):
         return hashlib.md5((f[2] + "|" + f[1][f[1].find(" S "):]).encode()).hexdigest()
-    if line.startswith(("FAULT ", "CONC ", "CONS ", "CRASH ")):
+    if line.startswith(("FAULT ", "CONC ", "CONS ", "CRASH ", "SOCK ")):
         return hashlib.md5(re.sub(r"\b1[0-9]{12}\b|\b[0-9]{5,9}\b", "T", " | ".join(f[1:3])).encode()).hexdigest()
     pre = f[1]
     i = pre.find(" S ")
@@ -250,7 +274,7 @@ def step_key(line):
 
 def nontrivial(line):
     f = line.split(" | ")
-    if line.startswith(("FAULT ", "CONS ")):
+    if line.startswith(("FAULT ", "CONS ", "SOCK ")):
         return True
     if line.startswith("CONC "):
         return len(f) >= 4 and f[2].count(" ;; ") >= 1
